@@ -62,7 +62,7 @@ def spellings_for_char(ch: str, style: str, prev_raw_quote: bool, last: bool, nx
     elif ch == "\n":
         raw_ok = triple
     elif ch == "\r":
-        raw_ok = False  # CR handling inside triple quotes is normalised by some lexers: not asserted raw
+        raw_ok = triple  # cel.lark lists \r\n, \r and \n as content of a triple-quoted literal: a raw CR is a spelled code point
     elif ch == q:
         raw_ok = triple and not prev_raw_quote and not last and nxt != q
     if raw_ok:
@@ -118,7 +118,7 @@ def raw_ok(s: str, style: str) -> bool:
         if "\n" in s or "\r" in s or q in s:
             return False
     else:
-        if style in s or s.endswith(q) or "\r" in s:
+        if style in s or s.endswith(q):
             return False
     if s.endswith("\\"):
         return False
@@ -150,9 +150,9 @@ def encode_bytes(b: bytes, style: str, rnd, force=None):
         opts = ["x", "octal"]
         if ch is not None:
             ok_raw = True
-            if ch == "\\" or ch == "\r":
+            if ch == "\\":
                 ok_raw = False
-            elif ch == "\n":
+            elif ch in "\n\r":
                 ok_raw = triple
             elif ch == q:
                 nxt = chr(b[i + 1]) if i + 1 < len(b) else ""
@@ -443,7 +443,7 @@ def run(ctx):
                 i += 1
                 if not ctx.mine(i):
                     continue
-                for ctxs in (ch, "a" + ch + "b", ch + ch):
+                for ctxs in (ch, "a" + ch + "b", ch + ch) + (("a\r\nb", "\n\r", "\r\n\r\n") if ch == "\r" else ()):
                     try:
                         src, used = encode_string(ctxs, style, rnd, force=how)
                     except Exception:
